@@ -4,7 +4,9 @@
 From Coq Require Import List NArith Bool.
 From SV Require Import lib.Bytes model.Graph model.GraphInv gen.GenCrash model.Crash proofs.CrashProofs
   proofs.CrashReach proofs.CrashStarted model.CrashStartup proofs.CrashStartupGen proofs.CrashStartupProofs.
-From SV Require model.Engine proofs.EngineProofs model.CrashEngine proofs.CrashEngineProofs.
+From SV Require Import model.CrashHist proofs.CrashHistProofs.
+From SV Require model.Engine proofs.EngineProofs model.CrashEngine proofs.CrashEngineProofs
+  proofs.EngineAmendProofs proofs.EngineAmendFull proofs.CrashEngineAmend.
 Import ListNotations.
 Open Scope N_scope.
 
@@ -156,6 +158,53 @@ Example C05_started_example :
   proto_run started_example (init_st 100) [] /\
   snd (run_started started_example (init_st 100) []) = [s_mka].
 Proof. exact started_example_ok. Qed.
+
+(* ---- 2b. histories WITH kills (model/CrashHist.v) ------------------------------------------------
+   An event is a committed transaction or a kill of the director and its commands followed by the
+   start of the next director up to the end of reset_interrupted_steps.  A kill may follow ANY
+   transaction, any number of times.  For every such history that respects [proto] between kills:
+   [J] holds at the end, and at EVERY kill every step whose command was running is, for the next
+   director, without stored hash, without BUILT product, PENDING (FAILED if detached). *)
+Theorem C05_interrupted_invariant_all_histories :
+  forall evs s started,
+    J started s -> proto_hist evs s started ->
+    J (snd (run_hist evs s started)) (fst (run_hist evs s started)) /\
+    Forall kill_ok (kills evs s started).
+Proof. exact hist_invariant. Qed.
+
+(* in particular: a kill at every commit point k of every history from the empty workflow *)
+Theorem C05_interrupted_at_every_commit_point :
+  forall cap ops k,
+    proto_run ops (init_st cap) [] ->
+    nodup_by str_eqb (map sl (steps (run_ops (firstn k ops) (init_st cap)))) = true ->
+    Forall kill_ok (kills (kill_at ops k) (init_st cap) []).
+Proof. exact every_commit_point. Qed.
+
+(* the skip rule: Scheduler.pop_next_job dispatches a step with a stored hash as CHECKING
+   (try_skip_job, the only job that can record a skip: [proto]) and a step without one as RUNNING
+   (execute_job).  An interrupted step has none, so its next dispatch executes the command ... *)
+Theorem C05_interrupted_step_dispatched_to_execution :
+  forall x s s',
+    has_hash x s = false -> step_op (OpDispatch x) s = Ok s' ->
+    has_hash x s' = false /\ built_products x s' = built_products x s /\
+    (sstate_of x s' = Some SRunning \/ sstate_of x s' = None).
+Proof. exact dispatch_hashless_runs. Qed.
+
+(* ... and between the restart and that dispatch no transaction of the restarted build gives it a
+   stored hash or a BUILT product ([proto_i]: completions, skip checks and redefinitions are those of
+   other steps, a completion names no product of the step, hash results never have cause SUCCEEDED;
+   delete_detached, which runs after the job loop, is excluded) *)
+Theorem C05_interrupted_facts_kept_until_dispatch :
+  forall x s o s', Ix x s -> proto_i x s o -> step_op o s = Ok s' -> Ix x s'.
+Proof. exact interrupted_kept. Qed.
+
+Example C05_interrupted_history_example :
+  proto_hist (kill_at d6_history 7) (init_st 100) [] /\
+  map fst (kills (kill_at d6_history 7) (init_st 100) []) = [[s_mka]] /\
+  match reset_interrupted (run_ops (firstn 7 d6_history) (init_st 100)) with
+  | Ok s' => has_hash s_mka s' = false /\ built_products s_mka s' = [] /\ sstate_of s_mka s' = Some SPending
+  | _ => False end.
+Proof. exact hist_example_ok. Qed.
 
 (* ---- 3. stray UNCONFIRMED files ---------------------------------------------------------------*)
 Theorem C05_stray_unconfirmed_resolved :
@@ -340,6 +389,96 @@ Example C05_engine_example :
   Engine.build_log CrashEngineProofs.ce_run CrashEngineProofs.ce_diamond CrashEngineProofs.ce_diamond
                    CrashEngineProofs.ce_start = [(102, true); (103, true)].
 Proof. exact CrashEngineProofs.ce_example. Qed.
+
+(* ---- 6b. C05_full on the engine with amended inputs, deferral and failing steps ----------------
+   model/Engine.v Section Amend ([gate] = true is the dispatch rule of the code), invariant [InvA] of
+   C01 (proofs/EngineAmendFull.v: recorded traces valid for the step with its remembered amended
+   inputs, K = no stale success, closure).  model/CrashEngine.v Section CrashAmend:
+   [crash_state_a g proj y c]: the first k dispatch decisions of a build (run, skip, deferral,
+   failure), and possibly one more step whose command was running: PENDING, not deferred, no
+   recorded trace, ANY content at its outputs, and remembering the amended inputs whose amend() call
+   was committed before the kill (some of those the command asks for). *)
+Section EngineCrashAmend.
+  Import Engine EngineProofs EngineAmendProofs EngineAmendFull CrashEngine CrashEngineAmend.
+  Variable run : N -> list (option N) -> list (option N) -> N -> N.
+  Variable amend : N -> list (option N) -> list N.
+  Variable fails : N -> list (option N) -> list (option N) -> bool.
+
+  (* every crash state of every build, gated (the code) or not, satisfies the invariant and has the
+     sources and the environment of the killed build *)
+  Theorem C05_crash_state_satisfies_InvA :
+    forall (proj : project), wf_a amend proj ->
+    forall (g : bool) (y c : asys),
+      InvA run amend fails proj y -> (forall q, In q proj -> afail y (sid q) = false) ->
+      crash_state_a run amend fails g proj y c ->
+      InvA run amend fails proj c /\ same_world proj (abase y) (abase c).
+  Proof. exact (crash_state_a_InvA run amend fails). Qed.
+
+  (* ungated dispatch: the restarted build is finished and has the step states (FAILED included)
+     and output contents of the build that was not killed, and of a build from scratch *)
+  Theorem C05_full_amend_failing_ungated :
+    forall (proj : project), wf_a amend proj ->
+    forall (y c : asys),
+      InvA run amend fails proj y -> (forall q, In q proj -> afail y (sid q) = false) ->
+      crash_state_a run amend fails false proj y c ->
+      let r := restart_a run amend fails false proj c in
+      InvA run amend fails proj r /\ Finished_a run amend fails proj r /\
+      same_result_a proj r (a_build run amend fails false proj y) /\
+      same_result_a proj r (build_world_a run amend fails false proj (fs (abase y), ev (abase y)) empty_asys).
+  Proof. exact (crash_restart_a_equals_uninterrupted run amend fails). Qed.
+
+  (* the gating of the code: the restarted build keeps the invariant (no stale success) and the
+     world, and has the result of the build that was not killed whenever both are finished (a gated
+     build need not be: D28, C01_D28_engine_refuted) *)
+  Theorem C05_full_amend_failing_gated_partial :
+    forall (proj : project), wf_a amend proj ->
+    forall (g : bool) (y c : asys),
+      InvA run amend fails proj y -> (forall q, In q proj -> afail y (sid q) = false) ->
+      crash_state_a run amend fails g proj y c ->
+      let r := restart_a run amend fails g proj c in
+      InvA run amend fails proj r /\ same_world proj (abase y) (abase r) /\
+      (Finished_a run amend fails proj r -> Finished_a run amend fails proj (a_build run amend fails g proj y) ->
+       same_result_a proj r (a_build run amend fails g proj y)).
+  Proof. exact (crash_restart_a_gated_partial run amend fails). Qed.
+
+  (* the step whose command was running is never hash-checked-and-skipped by the restarted build *)
+  Theorem C05_interrupted_step_not_skipped_amend :
+    forall (proj : project), wf_a amend proj ->
+    forall (g : bool) (s : step) (y : asys) (junk : N -> option N) (dyn : list N),
+      In s proj ->
+      let c := torn_a s y junk dyn in
+      ~ In (sid s, false)
+           (a_build_log run amend fails g proj proj (resync_a proj c (fs (abase c), ev (abase c)))).
+  Proof. exact (interrupted_step_not_skipped_a run amend fails). Qed.
+End EngineCrashAmend.
+
+(* full statement for the dispatch rule of the code, not proved: needs that a gated build from a
+   crash state is finished whenever the gated build that was not killed is *)
+Definition C05_full_amend_gated : Prop :=
+  forall run amend fails (proj : Engine.project), Engine.wf_a amend proj ->
+  forall (y c : Engine.asys),
+    EngineAmendFull.InvA run amend fails proj y -> (forall q, In q proj -> Engine.afail y (Engine.sid q) = false) ->
+    CrashEngine.crash_state_a run amend fails true proj y c ->
+    Engine.same_result_a proj (CrashEngine.restart_a run amend fails true proj c)
+                         (Engine.a_build run amend fails true proj y).
+
+(* the hypotheses are satisfiable, and on this instance the gated statement holds at every point:
+   an amending script step that can fail, all four steps rerun, killed at every point between
+   decisions and inside every command (before and after its amend() call), with the working and
+   with the failing script, gated and ungated *)
+Example C05_engine_amend_example :
+  Engine.wf_a (Engine.amend_tab CrashEngineAmend.ca_tab) CrashEngineAmend.ca_proj /\
+  (forall g script,
+     EngineAmendFull.InvA Engine.mix_run (Engine.amend_tab CrashEngineAmend.ca_tab)
+       (Engine.fail_tab CrashEngineAmend.ca_ftab) CrashEngineAmend.ca_proj (CrashEngineAmend.ca_start g script) /\
+     (forall q, In q CrashEngineAmend.ca_proj ->
+                Engine.afail (CrashEngineAmend.ca_start g script) (Engine.sid q) = false)) /\
+  CrashEngineAmend.ca_all_points false 5 = true /\ CrashEngineAmend.ca_all_points true 5 = true /\
+  CrashEngineAmend.ca_all_points false 6 = true /\ CrashEngineAmend.ca_all_points true 6 = true.
+Proof.
+  split; [exact CrashEngineAmend.ca_wf_a|]. split; [exact CrashEngineAmend.ca_start_ok|].
+  destruct CrashEngineAmend.ca_example as (H1 & H2 & H3 & H4 & _). repeat split; assumption.
+Qed.
 
 (* ---- non-vacuity ---------------------------------------------------------------------------- *)
 (* every prefix of the two witness histories satisfies the hypotheses used above, opens without
